@@ -3,9 +3,12 @@
 package actionlint
 
 import (
+	"bytes"
+	"strconv"
 	"io"
 	"os"
 	"path/filepath"
+	"strings"
 )
 
 // verifC10NativeMulti: the multi-file harness on a real directory tree.
@@ -125,6 +128,92 @@ func verifC02NativeJobOrder(src string) {
 			verifCheck(len(errs) >= 2, "shared-errors-are-reported")
 		}
 		verifCheckf(out == first, "output-depends-on-map-iteration-order", out)
+	}
+	verifReach("compared")
+}
+
+func verifC10NativeFindProject(gs, ws, gr, wr int, want string) {
+	tmp, err := os.MkdirTemp("", "verif-c10p-")
+	if err != nil {
+		panic(err)
+	}
+	defer os.RemoveAll(tmp)
+	tmp, _ = filepath.EvalSymlinks(tmp)
+	mk := func(p string, kind int) {
+		switch kind {
+		case 1:
+			if err := os.MkdirAll(p, 0o755); err != nil {
+				panic(err)
+			}
+		case 2:
+			if err := os.MkdirAll(filepath.Dir(p), 0o755); err != nil {
+				panic(err)
+			}
+			if err := os.WriteFile(p, []byte("gitdir: elsewhere\n"), 0o644); err != nil {
+				panic(err)
+			}
+		}
+	}
+	if err := os.MkdirAll(filepath.Join(tmp, "r", "sub"), 0o755); err != nil {
+		panic(err)
+	}
+	mk(filepath.Join(tmp, "r", "sub", ".git"), gs)
+	mk(filepath.Join(tmp, "r", "sub", ".github", "workflows"), ws)
+	mk(filepath.Join(tmp, "r", ".git"), gr)
+	mk(filepath.Join(tmp, "r", ".github", "workflows"), wr)
+	p, err := findProject(filepath.Join(tmp, "r", "sub", ".github", "workflows", "w.yml"))
+	verifReach("found")
+	verifCheck(err == nil, "find-project-failed")
+	got := ""
+	if p != nil {
+		got = strings.TrimPrefix(p.RootDir(), tmp)
+	}
+	verifCheckf(got == want, "file-assigned-to-the-wrong-repository", got+" <> "+want)
+}
+
+// verifC02NativeFormat: three real files with a custom format; the first file
+// is slow to check (400 jobs), so its goroutine finishes last. 10 runs: the
+// formatted stream lists the files in argument order every time.
+func verifC02NativeFormat() {
+	tmp, err := os.MkdirTemp("", "verif-c02f-")
+	if err != nil {
+		panic(err)
+	}
+	defer os.RemoveAll(tmp)
+	must := func(err error) {
+		if err != nil {
+			panic(err)
+		}
+	}
+	must(os.MkdirAll(filepath.Join(tmp, ".github", "workflows"), 0o755))
+	must(os.MkdirAll(filepath.Join(tmp, ".git"), 0o755))
+	var paths []string
+	for k, name := range []string{"a.yml", "b.yml", "c.yml"} {
+		src := "on: push\njobs:\n"
+		n := 1
+		if k == 0 {
+			n = 400
+		}
+		for j := 0; j < n; j++ {
+			src += "  j" + strconv.Itoa(j) + ":\n    runs-on: ubuntu-latest\n    steps:\n      - run: echo ${{ github.sha }}\n"
+		}
+		src += "  last:\n    runs-on: ubuntu-latest\n    steps:\n      - run: echo ${{ unknown" + strconv.Itoa(k) + ".x }}\n"
+		p := filepath.Join(tmp, ".github", "workflows", name)
+		must(os.WriteFile(p, []byte(src), 0o644))
+		paths = append(paths, p)
+	}
+	for rep := 0; rep < 10; rep++ {
+		var buf bytes.Buffer
+		l, err := NewLinter(&buf, &LinterOptions{Format: "{{range $ := .}}{{$.Filepath}}\n{{end}}"})
+		must(err)
+		errs, err := l.LintFiles(paths, nil)
+		verifCheck(err == nil, "lint-failed")
+		want := ""
+		for _, p := range paths {
+			want += p + "\n"
+		}
+		verifCheckf(len(errs) == 3, "returned-diagnostics-depend-on-goroutine-completion-order", strconv.Itoa(len(errs)))
+		verifCheckf(buf.String() == want, "formatted-output-depends-on-goroutine-completion-order", buf.String())
 	}
 	verifReach("compared")
 }
